@@ -299,6 +299,10 @@ def main(prop, tier, seed, jobs=None, replay=None):
         if m['evaluations'] == 0:
             inconc.append('no evaluations')
         reached = m['sets'].get('reached', set())
+        if os.environ.get('VERIF_DUMP_REACHED'):
+            with open(os.environ['VERIF_DUMP_REACHED'], 'a') as f:
+                for r in sorted(reached):
+                    f.write('%s %s\n' % (prop, r))
         for need in getattr(chk, 'REQUIRED', []):
             if need not in reached:
                 inconc.append('deciding code never executed: ' + need)
